@@ -179,7 +179,7 @@ fn main() {
         }
         Some("child-acc08") => {
             drop(out);
-            tr19::child_acc08();
+            tr19::child_acc08(argv.get(2).map(|s| s.as_str()) != Some("u"));
         }
         // harness gen <PROP> <seed> <count>
         Some("gen") => {
